@@ -78,12 +78,15 @@ template <class M> struct TrueHeights {
         if (l - r > 1 || r - l > 1) { if (blocked_by_routing_child(n, l, r)) ++blocked; else balanced = false; }
         return 1 + (l > r ? l : r);
     }
-    int blocked = 0, damaged = 0;
+    int blocked = 0, damaged = 0; bool concurrent_updates = false;
     void dump(N* n, std::string& out) { if (!n) { out += "-"; return; } char b[64]; snprintf(b, sizeof b, "(%ld%s h%d ", (long)n->m_key, n->is_valued(atomics::memory_order_relaxed) ? "" : "*", (int)n->m_nHeight.load(atomics::memory_order_relaxed)); out += b; dump(M::child(n, -1, atomics::memory_order_relaxed), out); out += " "; dump(M::child(n, 1, atomics::memory_order_relaxed), out); out += ")"; }
     std::string dump() { std::string o; dump(M::child(t->m_pRoot, 1, atomics::memory_order_relaxed), o); return o; }
-    bool avl(bool& ordered) { bool b = true; ordered = true; blocked = 0; damaged = 0; erased.clear(); if (g_consistency_ctx) for (auto& e : g_consistency_ctx->hist) { if ((e.kind == ERASE || e.kind == EXTRACT) && (!e.done || e.r)) erased.insert(e.a); if ((e.kind == EXTRACT_MIN || e.kind == EXTRACT_MAX) && e.done && e.r) erased.insert(e.r3); if (e.kind == EXTRACT_MIN || e.kind == EXTRACT_MAX || e.kind == CLEAR) { if (!e.done || e.kind == CLEAR) for (long k = 0; k < 64; k++) erased.insert(k); } } height(M::child(t->m_pRoot, 1, atomics::memory_order_relaxed), b, ordered, -(1L << 60), 1L << 60); return b; }
+    bool avl(bool& ordered) { bool b = true; ordered = true; blocked = 0; damaged = 0; erased.clear(); concurrent_updates = false;
+        if (g_consistency_ctx) { auto& H = g_consistency_ctx->hist; auto mut = [](const Event& e) { return e.kind == INSERT || e.kind == UPDATE || e.kind == UPSERT_NOINS || e.kind == ERASE || e.kind == EXTRACT || e.kind == EXTRACT_MIN || e.kind == EXTRACT_MAX; };
+            for (size_t i = 0; i < H.size() && !concurrent_updates; i++) for (size_t j = i + 1; j < H.size(); j++) if (mut(H[i]) && mut(H[j]) && H[i].thread != H[j].thread && H[i].inv < (H[j].done ? H[j].ret : ~0ULL) && H[j].inv < (H[i].done ? H[i].ret : ~0ULL)) { concurrent_updates = true; break; } }
+        if (g_consistency_ctx) for (auto& e : g_consistency_ctx->hist) { if ((e.kind == ERASE || e.kind == EXTRACT) && (!e.done || e.r)) erased.insert(e.a); if ((e.kind == EXTRACT_MIN || e.kind == EXTRACT_MAX) && e.done && e.r) erased.insert(e.r3); if (e.kind == EXTRACT_MIN || e.kind == EXTRACT_MAX || e.kind == CLEAR) { if (!e.done || e.kind == CLEAR) for (long k = 0; k < 64; k++) erased.insert(k); } } height(M::child(t->m_pRoot, 1, atomics::memory_order_relaxed), b, ordered, -(1L << 60), 1L << 60); return b; }
 };
-template <class Tree, class Chk> bool bronson_consistent(Tree* s, Chk* chk, std::string& why) { bool ordered = true; bool bal = chk->avl(ordered); if (!s->check_consistency() || !ordered) { why = "BronsonAVLTreeMap: search-tree order violated at quiescence"; return false; } if (!bal) { why = "BronsonAVLTreeMap: AVL balance violated at quiescence; tree (key[* = routing node] stored-height left right): " + chk->dump(); return false; }
+template <class Tree, class Chk> bool bronson_consistent(Tree* s, Chk* chk, std::string& why) { bool ordered = true; bool bal = chk->avl(ordered); if (!s->check_consistency() || !ordered) { why = "BronsonAVLTreeMap: search-tree order violated at quiescence"; return false; } if (!bal) { why = std::string(chk->concurrent_updates ? "@avl-imbalance-after-concurrent-updates " : "") + "BronsonAVLTreeMap: AVL balance violated at quiescence" + (chk->concurrent_updates ? " after overlapping updates (a rotation used the stale height of a child that another thread was changing, and that thread had already found 'nothing required' on the not yet rotated parent)" : "") + "; tree (key[* = routing node] stored-height left right): " + chk->dump(); return false; }
         if (chk->damaged) { why = "BronsonAVLTreeMap: a routing node with fewer than two children is still linked at quiescence (it can never be repaired: empty() is wrong, extract_min()/clear() spin on it); tree: " + chk->dump(); return false; }
         if (chk->blocked) { why = "@avl-imbalance-behind-routing-node BronsonAVLTreeMap: at quiescence a node is 2 too tall on the side of a routing child (double rotation refused, never repaired); tree (key[* = routing node] stored-height left right): " + chk->dump(); return false; } return true; }
 struct BF { R* r; template <class K, class V> void operator()(K const&, V& v) const { ++r->calls; r->inst = v; } };
@@ -137,8 +140,8 @@ struct br_ptr : cc::bronson_avltree::traits { typedef Less less; typedef cds::at
 
 void gen_skip(Rng& r, Program& p, int tier, const std::string&) { GenCfg g; g.caps = CAPS_TREE; g.min_hazards = 70; g.nkeys_hot = 4; gen_program(r, p, tier, g); p.set("level_mode", r.below(3)); }
 void gen_ellen(Rng& r, Program& p, int tier, const std::string&) { GenCfg g; g.caps = CAPS_TREE; g.min_hazards = 12; g.nkeys_hot = 4; gen_program(r, p, tier, g); }
-void gen_bron(Rng& r, Program& p, int tier, const std::string&) { GenCfg g; g.caps = CAPS_BRONSON; g.nkeys_hot = 5; g.nkeys_cold = 3; g.max_ops = 6; gen_program(r, p, tier, g); }
-void gen_bronp(Rng& r, Program& p, int tier, const std::string&) { GenCfg g; g.caps = CAPS_BRONSON; g.nkeys_hot = 5; g.nkeys_cold = 3; g.max_ops = 6; g.insert_forms = 1; gen_program(r, p, tier, g); }
+void gen_bron(Rng& r, Program& p, int tier, const std::string&) { GenCfg g; g.caps = CAPS_BRONSON; g.nkeys_hot = r.pick({5, 5, 8, 10}); g.nkeys_cold = 3; g.max_ops = r.pick({6, 6, 8}); gen_program(r, p, tier, g); }   // up to 15 keys: deeper trees, single and double rotations while readers traverse
+void gen_bronp(Rng& r, Program& p, int tier, const std::string&) { GenCfg g; g.caps = CAPS_BRONSON; g.nkeys_hot = r.pick({5, 5, 8, 10}); g.nkeys_cold = 3; g.max_ops = r.pick({6, 6, 8}); g.insert_forms = 1; gen_program(r, p, tier, g); }
 
 #define COMPT(f) "real: " f ", SMR; simulated: scheduler + faults, forced skip-list tower heights / eager reclamation; oracle: linearizability vs ordered key->instance map, relaxed interval oracle for extract_min/max, quiescent traversal / consistency checks / true AVL heights"
 #define SUBJ(var, NAME, T, GEN, F) typedef T T_##var; SM_SUBJECT(var, NAME, "C15,C18,C20", T_##var, GEN, COMPT(F))
